@@ -506,6 +506,7 @@ type FuncContract struct {
 	LemmaParams []SpecParam
 	Calls     []LemmaCall // lemma body: straight-line calls of contracted functions
 	Uses      []string    // lemmas whose conclusions are assumed at entry
+	Synth     bool        // synthesised from a typeinv block
 }
 
 // LemmaCall is one step "call r1, r2 := F(args)" of a lemma body.
@@ -521,6 +522,7 @@ type ContractDB struct {
 	Specs map[string]*SpecFunc
 	Files []string
 	Errs  []string
+	TypeInvs []*TypeInv
 }
 
 func newDB() *ContractDB {
@@ -582,6 +584,7 @@ func (db *ContractDB) loadFile(path, pkgPath string) {
 		lines = append(lines, ln{strings.TrimSpace(body), i + 1})
 	}
 	var cur *FuncContract
+	var curTI *TypeInv
 	var curLoop *LoopSpec
 	var curOn *OnCall
 	errf := func(no int, f string, a ...any) {
@@ -669,7 +672,36 @@ func (db *ContractDB) loadFile(path, pkgPath string) {
 			}
 			db.Funcs[key] = fc
 			cur, curLoop, curOn = fc, nil, nil
+			curTI = nil
+		case "typeinv":
+			curTI = &TypeInv{Type: normalizeFuncName(strings.TrimSpace(rest)), Pkg: pkgPath, Skip: map[string]string{}, Only: map[string]bool{}, File: path, Line: l.no}
+			db.TypeInvs = append(db.TypeInvs, curTI)
+			cur, curLoop, curOn = nil, nil, nil
 		default:
+			if cur == nil && curTI != nil {
+				switch kw {
+				case "property":
+					curTI.Props = append(curTI.Props, strings.Fields(rest)...)
+				case "fields":
+					curTI.Fields = append(curTI.Fields, strings.FieldsFunc(rest, func(r rune) bool { return r == ',' || r == ' ' })...)
+				case "inv":
+					if c := parseClause("inv", rest, l.no); c != nil {
+						curTI.Inv = append(curTI.Inv, c)
+					}
+				case "skip":
+					names, reason, _ := strings.Cut(rest, ":")
+					for _, n := range strings.Fields(names) {
+						curTI.Skip[n] = strings.TrimSpace(reason)
+					}
+				case "only":
+					for _, n := range strings.Fields(rest) {
+						curTI.Only[n] = true
+					}
+				default:
+					errf(l.no, "unknown typeinv keyword %q", kw)
+				}
+				continue
+			}
 			if cur == nil {
 				errf(l.no, "clause outside func: %s", l.text)
 				continue
